@@ -306,6 +306,7 @@ func (e *Exec) callStatic(fr *frame, st *State, fn *ssa.Function, args, bindings
 	}
 	if pureExternal(name) && e.conOf(fr, fn) == nil {
 		e.W.Note("assumed pure (no heap effect, unconstrained result): " + name)
+		e.approx++
 		if e.inQuant > 0 {
 			// deterministic function of its arguments inside quantified spec code
 			var as []*smt.Term
